@@ -28,6 +28,13 @@ class Opaque:
     def _pv_setattr(self, ex, name, v):
         self._attrs[name] = v
 
+    def _pv_type(self, ex):
+        """type(stub): calling it builds another object of the stub's kind from the given arguments (e.g. type(bit_generator)(seed))"""
+        from .pyvc import TypeTag
+        name = self._name
+        return TypeTag(name, lambda o: isinstance(o, Opaque) and o._name == name,
+                       lambda ex2, *a, **k: Opaque(name, constructed_from=a, source=(a[0] if a else None), **{kk: vv for kk, vv in self._attrs.items() if isinstance(vv, Native)}))
+
     def _pv_isinstance(self, ex, spec):
         """a contract stub stands for ANY object satisfying the contract: whether it is an instance of a given library class is
         not determined by the contract, so code that dispatches on it is explored both ways (consistently per class)"""
